@@ -120,7 +120,8 @@ def relate(draw, c, s):
 
 
 @st.composite
-def pair(draw, flavours=("cert", "cert", "cert", "srp", "srp_cert", "anon")):
+def pair(draw, flavours=("cert", "cert", "cert", "srp", "srp_cert", "anon",
+                         "psk")):
     c = draw(one_side("client"))
     s = draw(one_side("server"))
     relate(draw, c, s)
@@ -132,6 +133,16 @@ def pair(draw, flavours=("cert", "cert", "cert", "srp", "srp_cert", "anon")):
         if flavour == "srp_cert":
             case["cred"] = draw(st.sampled_from(["rsa", "rsa1024",
                                                  "rsa3072"]))
+    if flavour == "psk":
+        # external PSK (TLS 1.3) next to a certificate the server can fall
+        # back to; identities / secrets equal or not
+        case["cred"] = draw(st.sampled_from(["rsa", "ecdsa"]))
+        case["psk"] = {"hash": draw(st.sampled_from(["sha256", "sha384"])),
+                       "c_hash": draw(st.sampled_from(["sha256", "sha256",
+                                                       "sha384"])),
+                       "same_secret": draw(st.sampled_from([True, True,
+                                                            False])),
+                       "same_id": draw(st.sampled_from([True, True, False]))}
     if flavour == "cert":
         case["ccred"] = draw(st.sampled_from(CLIENT_CREDS))
         case["reqCert"] = draw(st.booleans())
@@ -208,6 +219,15 @@ def build_opts(case):
     elif fl == "anon":
         client["mode"] = "anon"
         server["anon"] = True
+    elif fl == "psk":
+        k = case["psk"]
+        server["cred"] = case["cred"]
+        ss.pskConfigs = [(bytearray(b"psk-id-1"), bytearray(b"\x07" * 32),
+                          k["hash"])]
+        cs.pskConfigs = [(bytearray(b"psk-id-1" if k["same_id"]
+                                    else b"psk-id-2"),
+                          bytearray(b"\x07" * 32 if k["same_secret"]
+                                    else b"\x08" * 32), k["c_hash"])]
     if case.get("c_alpn") and fl == "cert":
         client["alpn"] = [bytearray(x.encode()) for x in case["c_alpn"]]
     if case.get("s_alpn"):
